@@ -6,7 +6,6 @@ CHECKS = {
         "note": "Trusted: Lean kernel (axioms propext, Classical.choice, Quot.sound only); the virtual-clock overlay rewrite; generators (coverage reported in evidence). sync.Map/sync.Mutex semantics assumed; concurrency argued per bucket critical section.",
         "technique": "Lean 4 proof (induction + potential-function invariant) + differential correspondence",
     },
-}
     "C02": {
         "text": "Lean theorems dispatch_sound / dispatch_complete / no_503_while_healthy over the model of ServeHTTP's dispatch path, for all five strategies and every pool, health, rotation, gauge and current-weight state; tied to the code by a differential run of the real LoadBalancer (scripted in-process transports, virtual clock) against the compiled model, with an independent window-bookkeeping oracle on the implementation's answers and a small-scope sweep of strategies x pool sizes x ejected subsets.",
         "note": "Trusted: Lean kernel; overlay clock rewrite; harness/generators. Guards stated in the theorem: no wrap of the 64-bit RR counter within one turn, gauges < MaxInt32. Dispatch is modelled sequentially; concurrent ejection racing a dispatch is out of this check.",
